@@ -292,7 +292,7 @@ class CHECK(vlib.Check):
 
     def signature(self, failure):
         sig = failure.get("signature") or "disagree"
-        return re.sub(r"\s+(/|c\d|x\d|got|names|sender|tag).*$", "", sig)
+        return re.sub(r"\s+(/\S*|c\d+|x\d+|got \d+|names \S+|sender \d+:|tag \d+)(\s.*)?$", "", sig)
 
     def distribution(self, sc):
         d = {}
